@@ -1394,6 +1394,10 @@ M("SEED-C20-b", ["C20"], [("@patch", "seeded/C20-b/patch.diff", "")], ["C20/publ
 for _p in sorted(_glob.glob(_os.path.join(_os.path.dirname(_os.path.abspath(__file__)), "refactors", "rf3", "*.diff"))):
     RF("RF3-" + _os.path.basename(_p)[:-5], ALL19, [("@patch", "selftest/refactors/rf3/" + _os.path.basename(_p), "")])
 
+# fourth round: organisational refactorings (guard clauses, sub-borrows, loop forms, private structs, generic helpers)
+for _p in sorted(_glob.glob(_os.path.join(_os.path.dirname(_os.path.abspath(__file__)), "refactors", "rf4", "*.diff"))):
+    RF("RF4-" + _os.path.basename(_p)[:-5], ALL19, [("@patch", "selftest/refactors/rf4/" + _os.path.basename(_p), "")])
+
 
 # Behaviour-preserving refactorings on which a check is *known* to fail closed (documented in DESIGN.md §6.5 / §8): the
 # property still holds; the construct the rewrite introduces is outside what the analysis can resolve.  They stay in the
